@@ -84,7 +84,7 @@ def _child(unit: dict) -> dict:
 def run_unit(unit: dict) -> dict:
     try:
         st, val = core.run_forked(_child, unit, wall_limit=unit.get("wall",
-                                                                    600))
+                                                                    1800))
     except core.ChildTimeout:
         return {"status": "harness-timeout"}
     if st == "ok":
